@@ -21,9 +21,9 @@ EXTRA = [
 
 def shards(tier, seed):
     if tier == 'thorough':
-        # a quarter of C09's seed-indexed 32-point instances: the
+        # a twelfth of C09's seed-indexed 32-point instances: the
         # enumeration takes up to 30 CPU-seconds on one of them
-        return c09.shards(tier, seed, large=6000) + _enum_shards()
+        return c09.shards(tier, seed, large=2000) + _enum_shards()
     out = c09.shards(tier, seed, spread=128, cyclic_grids=['b4'],
                      small=['b1', 'b2', 'b3', 'g4', 's4', 'n4', 'g42', 'n42'],
                      large=0)
